@@ -28,7 +28,7 @@ def term(mode, t):
         k = ev["e"]
         if k == "start": e = "None"
         elif k == "proc":
-            f = {"none": "NoFault", "rej": "Rejected", "abe": "AppliedButError"}[ev["fault"]]
+            f = {"none": "NoFault", "rej": "Rejected", "abe": "AppliedButError", "timeout": "Rejected"}[ev["fault"]]
             e = "(Some (PvProcess %d%%nat %s))" % (ev["c"], f)
         elif k == "deliver": e = "(Some (PvDeliver %d%%nat))" % ev["c"]
         elif k == "part": e = "(Some (PvPart %d%%nat %s))" % (ev["pid"], "(PDone %s)" % coq_bytes(pre) if ev["st"] == "done" else "PFailed")
@@ -43,7 +43,9 @@ def term(mode, t):
                 q = o["q"]; kk = q["k"]
                 if kk == "listpend": calls.append("QListPend")
                 elif kk == "listdone": calls.append("QListDone")
-                elif kk == "wait" and q["pid"] is not None and q.get("timeout") is None: calls.append("(QWaitPart %d%%nat)" % q["pid"])
+                elif kk == "wait" and q["pid"] is not None:
+                    # a wait that carries a timeout is outside the model's vocabulary (reported as such); it is lowered to the plain wait
+                    calls.append("(QWaitPart %d%%nat)" % q["pid"])
                 elif kk == "pay" and q["other"] == "None|None|None|None|None|None|Some(20)":
                     calls.append("(QPay [] %s %s %d %d)" % (coq_opt(q["amount"], str), q["maxfee"], q["maxdelay"], q["retry"]))
                 else: calls.append("QListState")    # anything else: will not match the model
@@ -57,7 +59,7 @@ def term(mode, t):
             if kk == "pre": rr = "(Some (YPre %s))" % coq_bytes(y["p"])
             if rr is None: rr = "(Some YErr)"
             rep = "(Some %s)" % rr
-        steps.append("{| po_ev := %s; po_calls := %s; po_cancels := %s; po_reply := %s |}" % (e, coq_list(calls), coq_list(cancels), rep))
+        steps.append("{| po_ev := %s; po_calls := %s; po_cancels := %s; po_reply := %s; po_timeout := %s |}" % (e, coq_list(calls), coq_list(cancels), rep, coq_bool(ev.get("fault") == "timeout")))
     r = t["result"]
     res = "None" if r is None else "(Some PNone)" if r == "none" else "(Some PErr)" if r == "err" else "(Some (POk %s))" % coq_bytes(r["ok"])
     return "(%s, %s, %s, %s)" % (coq_bool(mode == "wait"), parts0, coq_list(steps), res)
@@ -101,6 +103,9 @@ def run_provider(prop, tier, seed):
         if rf: dist["with_injected_read_error"] += 1
         if shape: o.nontrivial.add(json.dumps(t["events"], sort_keys=True) + json.dumps(t["parts"]))
         desc = "%s with parts %s, %d events %s => result %s" % (mode, t["parts"], len(t["events"]), json.dumps(t["events"])[:500], json.dumps(t["result"]))
+        oov = [x["q"] for st in t["steps"] for x in st.get("out", []) if x["o"] == "call" and x["q"]["k"] == "wait" and x["q"].get("timeout") is not None]
+        if oov and not t.get("_oov_reported"):
+            o.corr_failures.append(("the implementation issued a request the model's vocabulary does not contain (waitsendpay with a timeout): %s; %s" % (json.dumps(oov[0]), desc), t))
         if bad:
             o.internal.append("contract violated by generated history: " + desc); continue
         if mon:
